@@ -259,6 +259,22 @@ def sessions(ctx, cfgs, mode, opts_for=lambda k: {}):
     return jobs
 
 
+def scale_state(n_alleles):
+    """One chromosome with a bubble of n_alleles alleles in the middle of the chain (written by hand in the generator's state
+    format, not enumerated by TLC: tip s1 - s2 =(s1000 ...)= s3 =(s4 | s5)= s6 - tip s7)."""
+    ref = ["s1", "s2", "s1000", "s3", "s4", "s6", "s7"]
+    alts = [f"s{1000 + k}" for k in range(1, n_alleles)] + ["s5"]
+    nodes = [{"id": n, "sn": "chrA", "so": 2 * k, "ln": 2, "sr": 0} for k, n in enumerate(ref)]
+    nodes += [{"id": n, "sn": "alt" + n[1:], "so": 0, "ln": 2, "sr": 1} for n in alts]
+    big = ["s1000"] + alts[:-1]
+    links = [("s1", "s2"), ("s3", "s4"), ("s3", "s5"), ("s4", "s6"), ("s5", "s6"), ("s6", "s7")]
+    links += [("s2", n) for n in big] + [(n, "s3") for n in big]
+    elems = [{"k": "b", "ns": ["s1"]}, {"k": "s", "ns": ["s2"]}, {"k": "b", "ns": big}, {"k": "s", "ns": ["s3"]},
+             {"k": "b", "ns": ["s4", "s5"]}, {"k": "s", "ns": ["s6"]}, {"k": "b", "ns": ["s7"]}]
+    return {"nodes": nodes, "links": [{"a": a, "ao": "+", "b": b, "bo": "+"} for a, b in links],
+            "chroms": [{"name": "chrA", "bad": False, "elems": elems}]}
+
+
 def finish(ctx, jobs, mode):
     cases = pool_map(run_session, jobs, chunk=2)
     for c in cases:
